@@ -184,7 +184,7 @@ class BuiltinMixin(CallMixin):
             return [(st, smt.fresh("id", smt.I))]
         if name == "print":
             return [(st, None)]
-        if name == "tuple":
+        if name in ("tuple", "frozenset"):
             if not args:
                 return [(st, ())]
             return [(st, tuple(self.concrete_items(st, args[0])))]
